@@ -48,6 +48,8 @@ def ring_cases(B, recs, rep, stats):
         if 'p5' in r and all(q[1] != 0 for q in r['p5']):
             checks.append(('pow5', lambda: A ** 5, r['p5']))
             checks.append(('pow5.0', lambda: A ** 5.0, r['p5']))
+            checks.append(('pow5:int64', lambda: A ** np.int64(5), r['p5']))
+            checks.append(('pow5:float32', lambda: A ** np.float32(5), r['p5']))
         if r['inv'] and near:
             checks.append(('div', lambda: A / Bz, r['quot']))
         if r['ainv']:
@@ -347,16 +349,22 @@ def graded_cases(B, progs, tier, seed, rep, stats):
                     continue
                 e, pw = (0.0, a, b, 0.0), (1.0, 0.0, 0.0, 0.0)
                 want, size = np.zeros(4), np.zeros(4)
+                tail = np.zeros(4)
                 for k, ck in enumerate(jet):
                     want += ck * delta ** k * np.array(pw)
                     size += abs(ck) * delta ** k * np.abs(pw)
+                    if k >= len(jet) - 3:
+                        tail = np.maximum(tail, abs(ck) * delta ** k * np.abs(pw))
                     pw = _bmul(pw, e)
+                if (tail > 1e-13 * np.maximum(size, 1e-300)).any() and tail.max() > 0:
+                    stats['graded_skipped'] += 1          # the truncated series has not converged at this size (cos(expm1(u)**3) at 2.5): no oracle
+                    continue
                 trunc = max(abs(t) for t in jet) * (delta * 2 * 8 / rho) ** len(jet) if rho != float('inf') else 0.0
                 Z = mk(B, [p, a * delta, b * delta, 0.0], (2,) if sh == 20 else None)
                 try:
                     with np.errstate(all='ignore'):
                         if prog is not None:
-                            got = comps(exprs.make_fun(prog, 1.0, 0.0, powop=(sh % 4 == 0))(Z))
+                            got = comps(exprs.make_fun(prog, 1.0, 0.0, powop={26: 'float', 20: 'int', 13: 'npint', 7: False}[sh])(Z))
                         else:
                             got = comps(bfun(name, Z, B))
                 except Exception as ex:
